@@ -14,3 +14,32 @@ Fixpoint win_run (w : nat) (win : list nat) (ops : list ((bool * list nat) * lis
       list_eqb Nat.eqb win' obs && win_run w win' t
   end.
 Definition check_win (c : win_case) : bool := let '(w, ops) := c in win_run w [] ops.
+
+(* ---- calls with changing parameters / weights (Model.SlidingWindow.swx_step) ----
+   per call: ((is_fit, window_size, only_labeled, weights passed), batch of (id, labeled)),
+   observation: None = the call raised, Some (window ids, ids of the weights window or None) *)
+Definition xobs := option (list nat * option (list nat)).
+Definition winx_case := list (((bool * nat * bool * bool) * list (nat * bool)) * xobs).
+
+Definition xcall_of (p : (bool * nat * bool * bool) * list (nat * bool)) : xcall :=
+  let '((f, w, ol, wt), b) := p in {| xfit := f; xw := w; xol := ol; xs := b; xwt := wt |}.
+
+Definition opt_list_eqb (a b : option (list nat)) : bool :=
+  match a, b with
+  | None, None => true
+  | Some x, Some y => list_eqb Nat.eqb x y
+  | _, _ => false
+  end.
+
+Fixpoint winx_run (s : xwin) (ops : winx_case) : bool :=
+  match ops with
+  | [] => true
+  | (c, obs) :: t =>
+      match swx_step s (xcall_of c), obs with
+      | None, None => true                      (* both raise: the history ends here *)
+      | Some s', Some (win, wts) =>
+          list_eqb Nat.eqb (map fst (xwindow s')) win && opt_list_eqb (xweights s') wts && winx_run s' t
+      | _, _ => false
+      end
+  end.
+Definition check_winx (c : winx_case) : bool := winx_run xempty c.
